@@ -388,7 +388,7 @@ func runT(base string, c tcase, res *tResult, sink *vsink) int {
 	// snapshot appears on its own afterwards (a new snapshot would only make a later scheduled build MORE likely)
 	settled := false
 	stable, last := 0, [2]int{-1, -1}
-	for dl := time.Now().Add(4 * time.Second); time.Now().Before(dl); time.Sleep(10 * time.Millisecond) {
+	for dl := time.Now().Add(10 * time.Second); time.Now().Before(dl); time.Sleep(10 * time.Millisecond) {
 		segs, snps := propdb.VerifC18IndexFiles(bg, n.db, group, 0)
 		if cur := [2]int{segs, snps}; cur == last && snps <= 1 {
 			stable++
